@@ -198,7 +198,7 @@ func (x *runner) runHistory(h *History, count bool) (fails []failure) {
 
 	// retention, decided on the real directory only: data files that disappeared from the main directory without
 	// being moved to oldat/, and the data-file number stored in the real index record of a block
-	present := map[uint64]bool{}
+	maxSeen := uint64(0)
 	removed := map[uint64]bool{}
 	scanDir := func() {
 		now := map[uint64]bool{}
@@ -214,14 +214,20 @@ func (x *runner) runHistory(h *History, count bool) (fails []failure) {
 				now[idx] = true
 			}
 		}
-		for idx := range present {
+		// data files are created with consecutive numbers: one that is absent below the highest number seen
+		// (and is not in oldat/) was removed — possibly created and removed within one operation
+		for idx := range now {
+			if idx > maxSeen {
+				maxSeen = idx
+			}
+		}
+		for idx := uint64(0); idx < maxSeen; idx++ {
 			if !now[idx] {
 				if _, err := os.Stat(filepath.Join(dir, "oldat", fmt.Sprintf("bl%08d.dat", idx))); err != nil {
 					removed[idx] = true
 				}
 			}
 		}
-		present = now
 	}
 	outOfRetention := func(b int) bool {
 		if !retention || b < 0 || b >= len(datas) {
